@@ -64,6 +64,8 @@ def stress(binary, trace, seed, rounds, writers, readers, ops, lookups, offset=0
         msg = str(e)
         if ("fatal error:" in msg or "panic:" in msg) and ("internal/rules" in msg or "radixtree" in msg):
             raise Crash(msg)
+        if "STALLED:" in msg and ("internal/rules" in msg or "radixtree" in msg):
+            raise Crash(msg[msg.index("STALLED:"):])
         raise
 
 
@@ -276,8 +278,8 @@ def fatal_crash(work, verdict, binary, seed, msg, rounds, writers, readers, ops,
     verdict.coverage.update({"evaluations": 1 + again, "distinct_nontrivial": 2, "traces_validated_against_impl": 0,
                              "states": 1, "transitions": 1, "rule": "stress driver terminated by a fatal runtime "
                              "error inside the repository code", "samples": [msg[-600:]]})
-    verdict.violation(rp, "fatal runtime error in the repository under concurrent changes and lookups "
-                          "(%d of 3 runs)" % (1 + again))
+    what = "no progress (stuck locks)" if msg.startswith("STALLED:") else "fatal runtime error"
+    verdict.violation(rp, "%s in the repository under concurrent changes and lookups (%d of 3 runs)" % (what, 1 + again))
     return verdict.finish()
 
 
